@@ -186,6 +186,27 @@ func interactionPrograms() []string {
 		out = append(out, fmt.Sprintf(`f = func(a, n) {for i = 2 {println("ERRTEXT", catch(%s))}}; f(0, 3)`, strings.ReplaceAll(use, "R", "i")))
 		out = append(out, fmt.Sprintf(`for n = 2 {println("ERRTEXT", catch(%s))}`, u))
 	}
+	// (L) recursion through counted loops: the loop variable (and the parameters) of an outer activation read again after an
+	//     inner activation of the SAME loop returned; the recursion argument is an integer, a string, an array (registers for
+	//     parameters exist only for integers, so the loop body is rewritten per call or not)
+	for _, arg := range []struct{ init, smaller, stop string }{{"3", "n - 1", "n <= 0"}, {`"xxx"`, "n[1:]", "len(n) == 0"}, {"[1, 2, 3]", "rest(n)", "len(n) == 0"}, {"2.0", "n - 1", "n <= 0"}} {
+		// (a DIRECT self call runs in an environment whose parent is the calling activation - documented in
+		// NewFunctionEnvironment - so without registers the inner loop assigns the outer activation's loop variable, with
+		// registers it cannot see it: that is the listed finding loop-variable-invisible-to-callees-during-loop, pinned in c05.go.
+		// Here the recursion goes through a second function, whose environment hangs off the definition scope.)
+		for _, shape := range []string{
+			`sub = func(n) {tree(n)}; tree = func(n) {if STOP {return []}; r = []; for i = 2 {r = r + sub(SMALLER); r = r + [i]}; r}; println(tree(INIT))`,
+			`sub = func(n) {tree(n)}; tree = func(n) {if STOP {return []}; r = []; for i = 2 {r = r + sub(SMALLER) + [i]}; r}; println(tree(INIT))`,
+			`sub = func(n) {tree(n)}; tree = func(n) {if STOP {return 0}; s = 0; for i = 3 {for j = 2 {s = s + sub(SMALLER) + i * 10 + j}}; s}; println(tree(INIT))`,
+			`a = func(n) {if STOP {return [0]}; r = []; for i = 2 {r = r + b(SMALLER) + [i]}; r}; b = func(n) {r = []; for i = 1:3 {r = r + a(n) + [-i]}; r}; println(a(INIT))`,
+			`sub = func(n, d) {tree(n, d)}; tree = func(n, d) {if STOP {return [d]}; r = []; for i = 2 {x = sub(SMALLER, d + 1); r = r + x + [i, d]}; r}; println(tree(INIT, 0))`,
+			`sub = func(n) {tree(n)}; tree = func(n) {if STOP {return ""}; r = ""; for i = 2 {r = r + sub(SMALLER); for k = 2 {r = r + "01"[i:i + 1] + "01"[k:k + 1]}}; r}; println(tree(INIT))`,
+			`sub = func(n) {catch(tree(n)).value}; tree = func(n) {if STOP {return 0}; t = 0; for i = 2 {t = t + sub(SMALLER) + i; if i == 1 {break}}; t}; println(tree(INIT))`,
+			`sub = func(n) {for q = 2 {w = tree(n)}; w}; tree = func(n) {if STOP {return [9]}; r = []; for i = 2 {for j = 2 {r = r + sub(SMALLER) + [i, j]}}; r}; println(len(tree(INIT)), tree(INIT)[0:12])`,
+		} {
+			out = append(out, strings.NewReplacer("STOP", arg.stop, "SMALLER", arg.smaller, "INIT", arg.init).Replace(shape))
+		}
+	}
 	// containers reached through references
 	for _, a := range []string{"x[0] = 5", `x.k = 5`, "del(x[0])", "x = x + 1", "x = x + x", "del(x)"} {
 		for _, init := range []string{"[1, 2, 3]", `{"k": 1, 0: 2}`, "1:12", `{1: 1, 2: 2, 3: 3, 4: 4, 5: 5}`} {
